@@ -339,6 +339,60 @@ def ext_name(prog: Program, where_, e: ast.AST) -> str:
         return ""
 
 
+_PARAM_MUTATORS = {"append", "extend", "insert", "remove", "pop", "clear", "sort", "reverse", "update", "add", "discard", "setdefault", "popitem", "__setitem__", "__delitem__"}
+
+
+def param_mutated(prog: Program, callee: FuncInfo, pname: str, depth: int = 0) -> Optional[ast.AST]:
+    """A statement / call of `callee` that changes the object its parameter `pname` is bound to in place (item store,
+    mutator method, hand-over to another package function that does), or None."""
+    if isinstance(callee.node, ast.Lambda):
+        return None
+
+    def is_param(n):
+        ds = prog.reaching(callee, pname, n)  # may still be the caller's object (`if x is None: x = {}` keeps it otherwise)
+        return any(d.kind == "param" for d in ds)
+    for node in A.body_nodes(callee.node):
+        if isinstance(node, ast.Call) and isinstance(node.func, ast.Attribute) and node.func.attr in _PARAM_MUTATORS and isinstance(node.func.value, ast.Name) and node.func.value.id == pname:
+            if is_param(node.func.value):
+                return node
+        elif isinstance(node, (ast.Assign, ast.Delete)):
+            for t in node.targets:
+                for el in (t.elts if isinstance(t, (ast.Tuple, ast.List)) else [t]):
+                    if isinstance(el, ast.Subscript) and isinstance(el.value, ast.Name) and el.value.id == pname and is_param(el.value):
+                        return node
+                    if isinstance(el, ast.Assign):
+                        pass
+        elif isinstance(node, ast.Assign):
+            pass
+        if isinstance(node, ast.Assign):
+            # `x = cache[key] = value` style chained stores
+            for t in node.targets:
+                if isinstance(t, ast.Subscript) and isinstance(t.value, ast.Name) and t.value.id == pname and is_param(t.value):
+                    return node
+        if depth < 1 and isinstance(node, ast.Call):
+            try:
+                ts, how = prog.resolve_callee(callee, node.func)
+            except Exception:
+                continue
+            if how != "exact" or len(ts) != 1 or not isinstance(ts[0], FuncInfo) or isinstance(ts[0].node, ast.Lambda):
+                continue
+            t = ts[0]
+            ps = t.params()
+            if t.cls is not None and not t.is_static and isinstance(node.func, ast.Attribute):
+                ps = ps[1:]
+            for i, a in enumerate(node.args):
+                if i < len(ps) and isinstance(a, ast.Name) and a.id == pname and is_param(a):
+                    m = param_mutated(prog, t, ps[i], depth + 1)
+                    if m is not None:
+                        return m
+            for k in node.keywords:
+                if k.arg in ps and isinstance(k.value, ast.Name) and k.value.id == pname and is_param(k.value):
+                    m = param_mutated(prog, t, k.arg, depth + 1)
+                    if m is not None:
+                        return m
+    return None
+
+
 def has_fact(fs, op: str, left_contains: str = "", right_contains: str = "") -> bool:
     """Symmetric for eq/ne."""
     for o, l, r in fs:
